@@ -13,10 +13,15 @@
    Part 2 (Plugins/Anon.v): AnonymizePlugin modelled completely (pseudonym tables, control-message and
    payload rewriting, the argument iterator's first step).
 
-   Not in Coq: "lifecycles detected on the anonymised trace have the same boundaries and counts" is checked
-   by the harness only ("equiv" cases: the real detector on the original and on the anonymised stream). *)
+   Part 3 (Plugins/LcEquiv.v, Plugins/AnonLc.v): the lifecycle detector MODEL of Lifecycle/Model.v (the
+   transcription of parse_lifecycles_buffered_from_stream used by C05-C08, tied to the code by their
+   correspondence checks) commutes with every ECU renaming that is injective on the ids of the stream — proved
+   outright from the model's definition, not assumed — and the anonymiser induces such a renaming below the
+   capacity.  The real detector is additionally run on original vs anonymised streams by the harness
+   ("equiv" cases). *)
 From Coq Require Import List NArith Bool.
-From AdltV Require Import Base.Res Base.MachInt Plugins.Chain Plugins.ChainProofs Plugins.Anon Plugins.AnonProofs Exec.C19.
+From AdltV Require Import Base.Res Base.MachInt Plugins.Chain Plugins.ChainProofs Plugins.Anon Plugins.AnonProofs Plugins.AnonLc Exec.C19.
+From AdltV Require Lifecycle.Model Plugins.LcEquiv.
 Import ListNotations.
 Open Scope N_scope.
 
@@ -225,6 +230,72 @@ Example C19_anon_nonvacuous :
     nth_error (map m_payload outs) 3 = Some [1; 2; 3; 4; 8; 0; 0; 0; 0; 0; 0; 0].
 Proof. cbv zeta. eexists. eexists. split; [vm_compute; reflexivity|]. vm_compute. repeat split. Qed.
 
+(* ------------------------------------------------------------------ Part 3: lifecycles of the anonymised trace *)
+
+(* the detector model commutes with any renaming [f] of ECU ids that is injective on the ids [S] of the stream:
+   deliveries (message + published table at that instant) and the final table are the renamed ones *)
+Theorem C19_detector_equivariant (f : N -> N) (S : N -> Prop) first_id ms :
+  (forall a b, S a -> S b -> f a = f b -> a = b) ->
+  Forall (fun m => S (Model.m_ecu m)) ms ->
+  Model.detect first_id [] (map (LcEquiv.ren_m f) ms) =
+  (map (LcEquiv.ren_del f) (fst (Model.detect first_id [] ms)), LcEquiv.ren_tbl f (snd (Model.detect first_id [] ms))).
+Proof. intros Hinj. exact (LcEquiv.detect_equivariant f S Hinj first_id ms). Qed.
+
+(* what the renaming does: nothing but the ECU label of messages and lifecycles *)
+Theorem C19_renaming_meaning f :
+  (forall m, LcEquiv.ren_m f m = {| Model.m_index := Model.m_index m; Model.m_ecu := f (Model.m_ecu m); Model.m_rt := Model.m_rt m;
+                                    Model.m_ts := Model.m_ts m; Model.m_has_ts := Model.m_has_ts m; Model.m_creq := Model.m_creq m;
+                                    Model.m_lc := Model.m_lc m |}) /\
+  (forall L, LcEquiv.ren_l f L = {| Model.l_id := Model.l_id L; Model.l_ecu := f (Model.l_ecu L); Model.l_nr := Model.l_nr L;
+                                    Model.l_nr_creq := Model.l_nr_creq L; Model.l_start := Model.l_start L; Model.l_min_ts := Model.l_min_ts L;
+                                    Model.l_max_ts := Model.l_max_ts L; Model.l_last_rt := Model.l_last_rt L; Model.l_resume := Model.l_resume L |}) /\
+  (forall t, LcEquiv.ren_tbl f t = map (fun kv => (fst kv, LcEquiv.ren_l f (snd kv))) t) /\
+  (forall x, LcEquiv.ren_del f x = (LcEquiv.ren_m f (fst x), LcEquiv.ren_tbl f (snd x))).
+Proof. repeat split. Qed.
+
+(* the anonymised stream, as the detector sees it ([lc_view]: index, ecu, reception time, timestamp, timestamp
+   presence, control-request flag), yields the detection result of the original stream with the ECU labels
+   replaced by their pseudonyms — for every stream whose ECU population is within the capacity *)
+Theorem C19_lifecycles_equivariant ms st' outs first_id :
+  anon_run true anon_init ms = Ok (st', outs) ->
+  blen (a_ecus st') <= capacity ->
+  Model.detect first_id [] (map lc_view outs) =
+  (map (LcEquiv.ren_del (ecu_renaming st')) (fst (Model.detect first_id [] (map lc_view ms))),
+   LcEquiv.ren_tbl (ecu_renaming st') (snd (Model.detect first_id [] (map lc_view ms)))).
+Proof. exact (anon_lifecycles_equivariant ms st' outs first_id). Qed.
+
+(* hence: the same (index, lifecycle id) per delivered message, and in the final table as well as in every
+   table published along the way the same (id, start, end, message count, control-request count, resume origin) *)
+Theorem C19_lifecycles_same_boundaries ms st' outs first_id :
+  anon_run true anon_init ms = Ok (st', outs) ->
+  blen (a_ecus st') <= capacity ->
+  map delivery_key (fst (Model.detect first_id [] (map lc_view outs))) =
+  map delivery_key (fst (Model.detect first_id [] (map lc_view ms))) /\
+  map lc_boundaries (snd (Model.detect first_id [] (map lc_view outs))) =
+  map lc_boundaries (snd (Model.detect first_id [] (map lc_view ms))) /\
+  map (fun x => map lc_boundaries (snd x)) (fst (Model.detect first_id [] (map lc_view outs))) =
+  map (fun x => map lc_boundaries (snd x)) (fst (Model.detect first_id [] (map lc_view ms))).
+Proof. exact (anon_same_boundaries ms st' outs first_id). Qed.
+
+(* non-vacuity: two ECUs, a reboot of the first one (three lifecycles), a control request; the hypotheses hold and
+   the detector really finds three lifecycles with the counts 2 / 2 / 2 *)
+Example C19_lifecycles_nonvacuous :
+  let rho := 1000000000000 in
+  let ms := [M 0 rho 11 100000 49 0 0 (Some (65, 1, 21, 31)) [] None 0;
+             M 1 (rho + 1000000) 12 50000 49 1 0 (Some (65, 1, 21, 31)) [] None 0;
+             M 2 (rho + 2000000) 11 120000 49 2 0 (Some (22, 1, 21, 31)) [19; 0; 0; 0] None 0;
+             M 3 (rho + 200000000) 11 10000 49 3 0 None [] None 0;
+             M 4 (rho + 201000000) 12 2050000 49 4 0 None [1] None 0;
+             M 5 (rho + 202000000) 11 30000 49 5 0 None [] None 0] in
+  exists st' outs, anon_run true anon_init ms = Ok (st', outs) /\ blen (a_ecus st') <= capacity /\
+    map (fun kv => Model.l_nr (snd kv)) (snd (Model.detect 1 [] (map lc_view outs))) = [2; 2; 2] /\
+    map (fun kv => Model.l_ecu (snd kv)) (snd (Model.detect 1 [] (map lc_view outs))) = [pseudo letter_E 1; pseudo letter_E 1; pseudo letter_E 2] /\
+    map (fun kv => Model.l_ecu (snd kv)) (snd (Model.detect 1 [] (map lc_view ms))) = [11; 11; 12].
+Proof.
+  cbv zeta. eexists. eexists. split; [vm_compute; reflexivity|]. split; [vm_compute; discriminate|].
+  vm_compute. repeat split.
+Qed.
+
 Print Assumptions C19_frame_meaning.
 Print Assumptions C19_chain_conservative.
 Print Assumptions C19_chain_conservative_fields.
@@ -245,3 +316,8 @@ Print Assumptions C19_anon_capacity_tight.
 Print Assumptions C19_anon_keeps_times.
 Print Assumptions C19_anon_keeps_classification.
 Print Assumptions C19_anon_nonvacuous.
+Print Assumptions C19_detector_equivariant.
+Print Assumptions C19_renaming_meaning.
+Print Assumptions C19_lifecycles_equivariant.
+Print Assumptions C19_lifecycles_same_boundaries.
+Print Assumptions C19_lifecycles_nonvacuous.
